@@ -179,6 +179,21 @@ pub fn c01_key(f: &Finding, p: &Program, _o: &Outcome) -> Option<String> {
             None
         }
         Kind::Arity => {
+            // a grouped aggregate that takes the name of its *computed* key (`select {x = a + 1, b} | group {x}
+            // (aggregate {x = sum b})`): the projection keeps one item per alias, the aggregate is dropped
+            {
+            let got = parse_names(&f.got);
+            let exp: Vec<Option<String>> = serde_json::from_str(&f.expected).unwrap_or_default();
+            if got.len() + 1 == exp.len() {
+                let agg_named_like_computed_key = main_frames(p).iter().any(|(fr, s)| match s {
+                    Step::Group { keys, inner } => inner.iter().any(|x| matches!(x, Step::Aggregate(a) if a.iter().any(|(n, _, _)| keys.iter().any(|&k| fr.named(k) == Some(n.as_str()) && fr.cols[k].input.is_none())))),
+                    _ => false,
+                });
+                if agg_named_like_computed_key {
+                    return Some("aggregate-named-like-its-computed-key-dropped".into());
+                }
+            }
+            }
             let got = parse_names(&f.got);
             let exp: Vec<Option<String>> = serde_json::from_str(&f.expected).unwrap_or_default();
             let exp_n = exp.len();
